@@ -46,13 +46,13 @@ pub struct MMapMetaFixedSubscriber { pub head: AtomicUsize, pub fixed_tail: usiz
 pub proof fn lemma_old_new_partition<T>(log: Seq<T>, t: int)
     requires 0 <= t <= log.len(),
     ensures log.subrange(0, t) + log.subrange(t, log.len() as int) =~= log,
-            forall|i: int| 0 <= i < log.len() ==> ((i < t) != (t <= i)),
+            forall|i: int| 0 <= i < log.len() ==> ((i < t) != (t <= i) && #[trigger] log[i] == log[i]),
 { }
 """
 
 MUTSELF = Rule("R6-mutable_self", r"let mutable_self = unsafe \{ &mut \*\(\*\(self as \*const Self as \*const std::cell::UnsafeCell<Self>\)\)\.get\(\) \};", "", count=1,
                note="&self -> &mut Self cast dropped (S-model &mut self)")
-SPIN = Rule("R11-spin", r"std::hint::spin_loop\(\);", "spin_hint();", min=1)
+SPIN = Rule("R11-spin", r"std::hint::spin_loop\(\);", "spin_hint();", min=0)
 
 
 def fn(name, impl, container, **kw):
@@ -78,7 +78,7 @@ FNS = [
     fn("publish", IMPL_PUB, C_META, props=["C09", "C03"],
        sig="pub fn publish(&mut self, setter: Setter<SlotType>) -> (r: (Option<NonZeroU32>, Option<Setter<SlotType>>))",
        sig_anchor=r"fn publish<F: FnOnce\(&mut SlotType\)>\(&self, setter: F\) -> \(Option<NonZeroU32>, Option<F>\)",
-       rules=[MUTSELF, Rule("R7-set-slot", r"let slot = unsafe \{ mutable_self\.buffer\.get_unchecked_mut\(tail\) \};\s*setter\(slot\);", "self.set_slot(tail, setter);", count=1,
+       rules=[MUTSELF, Rule("R7-set-slot", r"let slot = unsafe \{ mutable_self\.buffer\.get_unchecked_mut\(([^()]*)\) \};\s*setter\(slot\);", r"self.set_slot(\1, setter);", count=1,
                             note="unchecked slot access + setter call -> set_slot (index bound becomes an obligation)"), SPIN],
        requires="old(self).wf(), old(self).mmap_contents.consumer_tail@ < old(self).mmap_contents.slice_length@, old(self).mmap_contents.consumer_tail@ < 0xffff_fffe",
        ensures="final(self).wf(), final(self).log() =~= old(self).log().push(setter.value@),"
@@ -108,11 +108,11 @@ FNS = [
        sig_anchor=CONSUME_SIG_ANCHOR,
        rules=[MUTSELF, SPIN,
               Rule("R6-topic", r"self\.meta_mmap_log_topic\.mmap_contents", "topic.mmap_contents", count=1, note="Arc back-pointer -> explicit topic parameter"),
-              Rule("R6-slot-ref", r"unsafe \{ mutable_self\.buffer\.get_unchecked\(head\) \}", "topic.slot_ref(head)", count=1, note="unchecked read of the aliased mapping -> slot_ref (bound becomes an obligation)")],
+              Rule("R6-slot-ref", r"unsafe \{ mutable_self\.buffer\.get_unchecked\(([^()]*)\) \}", r"topic.slot_ref(\1)", count=1, note="unchecked read of the aliased mapping -> slot_ref (bound becomes an obligation)")],
        requires=CONSUME_REQ,
        ensures="old(self).head@ < topic.log().len() ==> final(self).head@ == old(self).head@ + 1 && (r matches Some(v) && getter_fn.ensures((&topic.log()[old(self).head@ as int],), v)),"
                "old(self).head@ >= topic.log().len() ==> final(self).head@ == old(self).head@ && r is None",
-       loops={0: "invariant self.head@ == head + 1, head == old(self).head@, head < usize::MAX,\ndecreases (if self.head@ == head + 1 { 1int } else { 0int }),"}),
+       loops={0: "invariant self.head@ == head + 1, head == old(self).head@, head < usize::MAX,\ndecreases (if self.head@ == head + 1 { 1int } else { 0int }),"}, loops_optional=True),
     fn("remaining_elements_count", IMPL_DYN, C_DYN, out_name="dynamic_remaining_elements_count", props=["C09", "C06"], kind="helper",
        sig="pub fn dynamic_remaining_elements_count<SlotType>(&self, topic: &MMapMeta<SlotType>) -> (r: usize)", sig_anchor=r"fn remaining_elements_count\(&self\) -> usize",
        rules=[Rule("R6-topic", r"self\.meta_mmap_log_topic\.mmap_contents", "topic.mmap_contents", count=1)],
@@ -122,12 +122,12 @@ FNS = [
            "(&mut self, topic: &MMapMeta<SlotType>, getter_fn: GetterFn, report_empty_fn: ReportEmptyFn, report_len_after_dequeueing_fn: ReportLenAfterDequeueingFn) -> (r: Option<GetterReturnType>)",
        sig_anchor=CONSUME_SIG_ANCHOR,
        rules=[MUTSELF, SPIN,
-              Rule("R6-slot-ref", r"unsafe \{ mutable_self\.buffer\.get_unchecked\(head\) \}", "topic.slot_ref(head)", count=1)],
+              Rule("R6-slot-ref", r"unsafe \{ mutable_self\.buffer\.get_unchecked\(([^()]*)\) \}", r"topic.slot_ref(\1)", count=1)],
        requires=CONSUME_REQ + ", old(self).fixed_tail <= topic.log().len()",
        ensures="final(self).fixed_tail == old(self).fixed_tail,"
                "old(self).head@ < old(self).fixed_tail ==> final(self).head@ == old(self).head@ + 1 && (r matches Some(v) && getter_fn.ensures((&topic.log()[old(self).head@ as int],), v)),"
                "old(self).head@ >= old(self).fixed_tail ==> final(self).head@ == old(self).head@ && r is None",
-       loops={0: "invariant self.head@ == head + 1, head == old(self).head@, head < usize::MAX, self.fixed_tail == old(self).fixed_tail,\ndecreases (if self.head@ == head + 1 { 1int } else { 0int }),"}),
+       loops={0: "invariant self.head@ == head + 1, head == old(self).head@, head < usize::MAX, self.fixed_tail == old(self).fixed_tail,\ndecreases (if self.head@ == head + 1 { 1int } else { 0int }),"}, loops_optional=True),
     fn("remaining_elements_count", IMPL_FIX, C_FIX, out_name="fixed_remaining_elements_count", props=["C09"], kind="helper",
        sig="pub fn fixed_remaining_elements_count(&self) -> (r: usize)", sig_anchor=r"fn remaining_elements_count\(&self\) -> usize",
        requires="self.head@ <= self.fixed_tail", ensures="r == self.fixed_tail - self.head@"),
